@@ -53,9 +53,40 @@ theorem flatten_map_map_embed (l : List (List Bool)) :
   | nil => rfl
   | cons a l ih => rw [List.map_cons, List.flatten_cons, List.flatten_cons, List.map_append, ih]
 
+omit [Fact p.Prime] in
+theorem beBits_len8 (n x : ℕ) : 8 ∣ (beBits n x).length := by
+  unfold beBits; rw [swapByteOrder_length]; exact Dvd.intro _ rfl
+
+theorem flatten_len8 (l : List (List Bool)) (h : ∀ x ∈ l, 8 ∣ x.length) : 8 ∣ l.flatten.length := by
+  induction l with
+  | nil => simp
+  | cons a l ih =>
+    rw [List.flatten_cons, List.length_append]
+    exact Nat.dvd_add (h a (by simp)) (ih fun x hx => h x (by simp [hx]))
+
+theorem insertionHashBits_len8 (start pre post : ℕ) (ids : List ℕ) :
+    8 ∣ (insertionHashBits start pre post ids).length := by
+  unfold insertionHashBits
+  simp only [List.length_append]
+  refine Nat.dvd_add (Nat.dvd_add (Nat.dvd_add (beBits_len8 _ _) (beBits_len8 _ _)) (beBits_len8 _ _)) ?_
+  apply flatten_len8
+  intro x hx
+  obtain ⟨i, _, rfl⟩ := List.mem_map.mp hx
+  exact beBits_len8 _ _
+
+theorem deletionHashBits_len8 (idxs : List ℕ) (pre post : ℕ) :
+    8 ∣ (deletionHashBits idxs pre post).length := by
+  unfold deletionHashBits
+  simp only [List.length_append]
+  refine Nat.dvd_add (Nat.dvd_add ?_ (beBits_len8 _ _)) (beBits_len8 _ _)
+  apply flatten_len8
+  intro x hx
+  obtain ⟨i, _, rfl⟩ := List.mem_map.mp hx
+  exact beBits_len8 _ _
+
 section
 variable (K : List Bool → List Bool)
-variable (hK : ∀ (msg : List Bool) (k : List (ZMod p) → Prop),
+variable (hK : ∀ (msg : List Bool), 8 ∣ msg.length → ∀ (k : List (ZMod p) → Prop),
   (Keccak.newKeccak256 (msg.map (embed (p := p))) : SatM p _) k ↔ k ((K msg).map embed))
 include hK
 
@@ -72,12 +103,16 @@ theorem insertionCircuit_iff (d : ℕ) (hd : 2 ^ d ≤ p) (ih start pre post : Z
   simp only [SatM.bind_apply, toReducedBigEndian_sat,
     mapM'_guard _ (fun id : ZMod p => id.val < 2 ^ 256)
       (fun id => swapByteOrder ((bitsLE 256 id.val).map embed)) (fun a k => toReducedBigEndian_sat a 256 k)]
-  simp only [swapByteOrder_map', ← List.map_append, List.map_map]
+  simp only [swapByteOrder_map', ← List.map_append]
   have hflat : (List.map (fun id : ZMod p => List.map (embed (p := p)) (swapByteOrder (bitsLE 256 id.val))) ids).flatten
-      = ((ids.map ZMod.val).map (beBits 256)).flatten.map embed := by
+      = ((ids.map ZMod.val).map (fun x => swapByteOrder (bitsLE 256 x))).flatten.map embed := by
     rw [← flatten_map_map_embed, List.map_map, List.map_map]; rfl
   rw [hflat]
-  simp only [← List.map_append, hK, fromBinaryBigEndian_embed, assertEq_iff,
+  simp only [← List.map_append]
+  have h8 := insertionHashBits_len8 start.val pre.val post.val (ids.map ZMod.val)
+  unfold insertionHashBits beBits at h8
+  rw [hK _ h8]
+  simp only [fromBinaryBigEndian_embed, assertEq_iff,
     insertionProof_iff _ (poseidonH p) poseidon2_hH d hd]
   unfold insertionHashBits beBits
   constructor
@@ -99,10 +134,14 @@ theorem deletionCircuit_iff (d : ℕ) (hd : 2 ^ (d + 1) ≤ p) (ih : ZMod p) (id
       (fun i => swapByteOrder ((bitsLE 32 i.val).map embed)) (fun a k => toReducedBigEndian_sat a 32 k)]
   simp only [swapByteOrder_map']
   have hflat : (List.map (fun i : ZMod p => List.map (embed (p := p)) (swapByteOrder (bitsLE 32 i.val))) idxs).flatten
-      = ((idxs.map ZMod.val).map (beBits 32)).flatten.map embed := by
+      = ((idxs.map ZMod.val).map (fun x => swapByteOrder (bitsLE 32 x))).flatten.map embed := by
     rw [← flatten_map_map_embed, List.map_map, List.map_map]; rfl
   rw [hflat]
-  simp only [← List.map_append, hK, fromBinaryBigEndian_embed, assertEq_iff,
+  simp only [← List.map_append]
+  have h8 := deletionHashBits_len8 (idxs.map ZMod.val) pre.val post.val
+  unfold deletionHashBits beBits at h8
+  rw [hK _ h8]
+  simp only [fromBinaryBigEndian_embed, assertEq_iff,
     deletionProof_iff _ (poseidonH p) poseidon2_hH d hd]
   unfold deletionHashBits beBits
   constructor
